@@ -10,9 +10,15 @@
 //	part A2 every single-byte replacement at every position of module-file contents of several lengths;
 //	part B  every DAG on <= 3 modules x every local/remote assignment x naming x add order x targeting,
 //	        every single-module content change, every single pinned dependency-digest byte change;
-//	part C  bufcas file sets / manifests over an extended path universe (spaces, unicode, control chars).
+//	part C  bufcas file sets / manifests over an extended path universe (spaces, unicode, control chars);
+//	part F  every read fault (Stat / Get / Read / Close / Walk x path x occurrence x once|persistent x error kind)
+//	        of small file sets through nine consuming scenarios and of dependency graphs (fault.go).
 //
-// Oracles: the independent reference construction in ref.go, invariance, sensitivity, round trip.
+// Part B also enumerates the path scheme of the imported files (plain, well-known-type path provided by a
+// module of the set, well-known-type import that nobody provides).
+//
+// Oracles: the independent reference construction in ref.go, invariance, sensitivity, round trip; under a
+// read fault: an error or the fault-free value, never the value of another file / dependency set.
 package c08
 
 import (
@@ -32,6 +38,7 @@ import (
 	"github.com/bufbuild/buf/private/bufpkg/bufmodule"
 	"github.com/bufbuild/buf/private/bufpkg/bufmodule/bufmoduletesting"
 	"github.com/bufbuild/buf/private/bufpkg/bufparse"
+	"github.com/bufbuild/buf/private/gen/data/datawkt"
 	"github.com/bufbuild/buf/private/pkg/slogext"
 	"github.com/bufbuild/buf/private/pkg/storage"
 	"github.com/bufbuild/bufverif/internal/enum"
@@ -83,13 +90,17 @@ func run(r *evid.Run) {
 		"through every configuration (backend x Walk permutation x name x locality x provider x targeting) and every single perturbation; " +
 		"part A2: every single-byte replacement at every position; part B: every DAG on <= 3 modules x local/remote assignment x naming x add order x targeting " +
 		"x provider, every single-module content change and every single pinned dependency-digest byte change; part C: every subset of <= K paths of the " +
-		"20-path manifest universe x contents {\"\",a}. A case is distinct and non-trivial when its reference module-file set (A), its " +
-		"(graph, assignment, naming) triple (B) or its reference manifest text (C) is new and non-empty.")
+		"20-path manifest universe x contents {\"\",a}; part B also over the path scheme of the imported files {plain, well-known-type path provided by a module, " +
+		"well-known-type import nobody provides}; part F: every read fault (operation in {Stat, Get, Read, Close, Walk} x path x occurrence x {once, persistent} x error kind) " +
+		"recorded for every file set of <= 2 (thorough 3) paths x 9 consuming scenarios and for every dependency graph x faulty module. " +
+		"A case is distinct and non-trivial when its reference module-file set (A), its " +
+		"(graph, assignment, naming, path scheme) tuple (B), its reference manifest text (C) or its (scenario, file set) / (graph, faulty module) pair (F) is new and non-empty.")
 	r.Assume("SHAKE256 from golang.org/x/crypto/sha3 is collision free on the enumerated inputs (used as the reference hash)")
 	r.Assume("a local module without any .proto file has no b5 digest (buf reports NoProtoFilesError); such (file set, local, b5) combinations are counted as skipped, the same file sets are still digested as remote modules and with b4")
 	r.Assume("b4 with v1 buf.yaml/buf.lock object data hashes them as two extra manifest entries (documented legacy construction); b5 must ignore them")
 	r.Assume("dependencies of remote modules are pinned b5 module keys; the b4-keyed dependency path through a CommitProvider is not explored")
-	r.Assume("storage backends are healthy (no I/O faults) and the disk backend is a Linux file system accepting the universe's file names")
+	r.Assume("parts A-C: storage backends are healthy; the disk backend is a Linux file system accepting the universe's file names")
+	r.Assume("part F: a fault is a failing call on a bucket whose content never changes (Walk keeps listing every object); under such a fault a digest / manifest / archive must be an error or the fault-free value. Stat is failed with I/O-class errors only: a Stat answering not-exist is an answer (it is how the documentation file is chosen), not a fault. Silently truncated reads are indistinguishable from shorter files and not injected")
 
 	scratch, err := os.MkdirTemp("", "verif-c08-")
 	if err != nil {
@@ -114,7 +125,7 @@ func run(r *evid.Run) {
 	r.Set("content_alphabet", contentAlphabet)
 
 	// VERIF_C08_PARTS (debugging aid, e.g. "B,C") restricts the run to some parts; such a run is never exhaustive.
-	parts := map[string]bool{"A": true, "A2": true, "B": true, "C": true}
+	parts := map[string]bool{"A": true, "A2": true, "B": true, "C": true, "F": true}
 	if sel := os.Getenv("VERIF_C08_PARTS"); sel != "" {
 		parts = map[string]bool{}
 		for _, p := range strings.Split(sel, ",") {
@@ -122,6 +133,13 @@ func run(r *evid.Run) {
 		}
 		r.Incomplete("partial run: VERIF_C08_PARTS=" + sel)
 	}
+	// the path schemes of part B are only meaningful if buf considers these paths well-known types
+	for _, p := range append(append([]string(nil), wktProviderPaths...), wktUnprovidedImport) {
+		if !datawkt.Exists(p) {
+			r.Incomplete("vacuity: " + p + " is not a well-known-type path of this buf tree")
+		}
+	}
+	r.Set("B_path_schemes", []string{"plain", schemeNames[schemeWKTProvider], schemeNames[schemeWKTUnprovided]})
 	// cheap parts first, so that an overloaded machine cuts only the tail of part A
 	if parts["A2"] {
 		e.partBytes()
@@ -131,6 +149,9 @@ func run(r *evid.Run) {
 	}
 	if parts["C"] {
 		e.partC(k)
+	}
+	if parts["F"] {
+		e.partF()
 	}
 	if parts["A"] {
 		e.memo = newMemo()
@@ -163,7 +184,12 @@ func run(r *evid.Run) {
 		"B/cases", "B/cases-with-transitive-dep", "B/cases-mixed-local-remote", "B/agree/local", "B/agree/remote", "B/agree/omni",
 		"B/perturb/dependent-changed", "B/perturb/independent-unchanged", "B/pinned-digest-change/detected", "B/pinned-digest-change/rekeyed",
 		"B/dep-order-not-sorted-as-given",
+		"B/cases-wkt-path-provider", "B/cases-wkt-import-unprovided", "B/wkt-provider-edges/local-on-local", "B/wkt-provider-edges/local-on-remote",
+		"B/agree/wkt-path-provider/local-importer", "B/agree/wkt-import-unprovided/local-importer", "B/perturb/dependent-changed/wkt-path-provider",
 		"C/cases", "C/roundtrip-ok", "C/paths-with-space", "C/paths-with-unicode", "C/walk-orders",
+		"F/cases", "F/dependency-cases", "F/outcome/error-reported", "F/outcome/fault-survived", "F/values-unaffected",
+		"F/faults-fired/stat-io", "F/faults-fired/get-notexist", "F/faults-fired/get-io", "F/faults-fired/read-io", "F/faults-fired/read-unexpected-eof",
+		"F/faults-fired/close-io", "F/faults-fired/walk-io", "F/faults-fired/walk-notexist",
 	} {
 		if e.total[must] == 0 && !r.Expired() && parts[strings.SplitN(must, "/", 2)[0]] {
 			r.Incomplete("vacuity: clause counter " + must + " is zero")
